@@ -378,9 +378,10 @@ pub fn filter_of(f: &Value) -> InstrumentFilter {
     let set: Vec<i64> = f["set"].as_array().expect("filter.set").iter().map(|x| x.as_i64().unwrap()).collect();
     match s(f, "k") {
         "None" => InstrumentFilter::None,
-        "Exchanges" => InstrumentFilter::Exchanges(OneOrMany::from_iter(set.iter().map(|e| ExchangeIndex(*e as usize)))),
-        "Instruments" => InstrumentFilter::Instruments(OneOrMany::from_iter(set.iter().map(|x| InstrumentIndex(*x as usize)))),
-        "Underlyings" => InstrumentFilter::Underlyings(OneOrMany::from_iter(set.iter().map(|u| underlying(*u)))),
+        // through the public constructors, as a user builds a filter from a collection (possibly empty)
+        "Exchanges" => InstrumentFilter::exchanges(set.iter().map(|e| ExchangeIndex(*e as usize))),
+        "Instruments" => InstrumentFilter::instruments(set.iter().map(|x| InstrumentIndex(*x as usize))),
+        "Underlyings" => InstrumentFilter::underlyings(set.iter().map(|u| underlying(*u))),
         k => usage(&format!("bad filter kind {k}")),
     }
 }
